@@ -293,8 +293,17 @@ def check_outgoing(chk, prover, mod, c, src):
                 else:
                     goals.append(('scalar parameter %d' % idx, word == scal[idx]))
             # result: what the extern returns must land in out^
-            if c.ret is not None and ret_shape != 'sret':
-                rets = [v for k, v in sorted(act_rets(p, ev).items())] if False else None
+            if c.ret is not None and c.ret.size() > 0:
+                vb = value_bytes(c.ret) if c.ret.kind == 'struct' else list(range(c.ret.size()))
+                if ret_shape == 'sret':
+                    sretp = ev[1][0]
+                    for b in vb:
+                        goals.append(('result byte %d copied from the sret buffer' % b, z3.Select(p.mem, BV(outp + b, 64)) == sel(p.mem, sretp, b)))
+                elif len(getattr(ev, 'rets', [])) == len(ret_shape):
+                    for (k, used, off), word in zip(ret_shape, ev.rets):
+                        for j in range(min(used, word.size() // 8)):
+                            if off + j in vb:
+                                goals.append(('result byte %d taken from its register word' % (off + j), z3.Select(p.mem, BV(outp + off + j, 64)) == z3.Extract(8 * j + 7, 8 * j, word)))
             for label, g in goals:
                 r, model = prover.prove(list(p.pc), g)
                 if r == 'sat':
